@@ -845,7 +845,7 @@ impl Router {
                     ackslog.pubrel(pubrel);
                     self.scheduler.reschedule(id, ScheduleReason::IncomingAck);
                 }
-                Packet::PubRel(pubrel, None) => {
+                Packet::PubRel(pubrel, _) => {
                     let span = tracing::info_span!("pubrel", pkid = pubrel.pkid);
                     let _guard = span.enter();
 
